@@ -139,6 +139,10 @@ def check(ctx, config, rule):
         ev = own(r)
         evs = r.events
         fe = [e for e in ev if e.kind == 'call' and (e.callee or '').endswith('for_each')]
+        if not fe:
+            # `while let Some(x) = drain.next() { drop(x) }`: the same exhaustion as a loop over Drain::next in the destructor's own frame
+            fe = [e for e in ev if e.kind == 'call' and 'vec::Drain<' in (e.callee or '') and (e.callee or '').endswith('Iterator>::next') and e.fn == b['id']
+                  and any(e.block in blks for blks in I.cfg(b).loops().values())]
         ext = [e for e in ev if e.kind == 'call' and (e.extra.get('trait_path') or '').endswith('Extend::extend')]
         fills = [e for e in ev if e.kind == 'call' and (e.callee or '').endswith('::fill')]
         mts = [e for e in ev if e.kind == 'call' and (e.callee or '').endswith('::move_tail')]
